@@ -24,6 +24,7 @@ import (
 	"github.com/fatedier/frp/pkg/util/util"
 
 	"verif/mc/drv"
+	"verif/mc/peek"
 	"verif/mc/vs"
 	"verif/mc/vs/vctx"
 	cw "verif/mc/worlds/cliworld"
@@ -580,6 +581,9 @@ func scenarios() {
 			var v int
 			fmt.Sscanf(f[1], "%d", &v)
 			s.Body = scStorm(v)
+		case "closeearly":
+			s.Body = scCloseEarly(f[1])
+			s.End = func(x *vs.Exec) string { return strings.Join(x.Obs, "\n") }
 		case "ilisten":
 			s.Body = scIListen
 			s.End = func(x *vs.Exec) string { return strings.Join(x.Obs, "\n") }
@@ -637,6 +641,27 @@ func scLane(variant string) func(x *vs.Exec) {
 			vs.Fail("lane/%s: the connection's read loop is stuck handing over an answer nobody waits for: the session no longer handles messages", variant)
 		}
 		vs.SetInterest(false)
+	}
+}
+
+// closeearly: the client is told to stop (what a signal handler, the ssh gateway's tunnel server or any embedding
+// program does) while it is still logging in or has just logged in. Stopping must stop it, not crash it.
+func scCloseEarly(when string) func(x *vs.Exec) {
+	return func(x *vs.Exec) {
+		w := cw.New(x, cw.Opt{HeartbeatInterval: -1, NoPoolRequests: true, Proxies: []v1.ProxyConfigurer{cw.TCPProxy("a", 8000, 9000)}})
+		// Service.Close uses what Run installs first: wait for that (an API precondition, not part of the race)
+		if !vs.BlockFor("run-started", 10*time.Second, func() bool { return !peek.F(w.Svc, "cancel").IsNil() }) {
+			vs.Observe("closeearly: Run did not start")
+			return
+		}
+		vs.SetInterest(true)
+		if when == "loggedin" {
+			vs.BlockFor("login-seen", 10*time.Second, func() bool { return w.Srv.LiveCount() > 0 })
+		}
+		w.Svc.Close()
+		time.Sleep(5 * time.Second)
+		vs.SetInterest(false)
+		vs.Observe("closeearly/%s done, sessions=%d", when, w.Srv.LiveCount())
 	}
 }
 
@@ -705,7 +730,7 @@ func main() {
 	if c == nil {
 		return
 	}
-	c.Rule("E1: (a) all single-field deviations over extreme-value alphabets (negative / huge integers, empty / 9000-char / control-character strings, nil / empty / 300-entry maps, nil / empty / 1000-entry lists, malformed addresses) of all 18 message types (NewProxy for all 8 proxy types) sent to the real frps as first message of a connection and on an established session, and of the server-to-client types sent by a model server to the real frpc; (a2) malformed user-side input on the tcpmux CONNECT port (14 Proxy-Authorization shapes x 2 hosts, 14 malformed request heads) and on the https port (a real ClientHello with each of its first 80 bytes set to 0xff / 0x00 or truncated there); after each case a bystander session, its tunnel, a fresh login and a fresh tunnel must work, no managed thread may have panicked (= process crash) and none may be stuck after teardown; (b) six concurrent mixed-traffic storms, the statistics collector of the dashboard switched on (registration / closure / groups / session cut; secret proxies, visitors and NAT-hole messages against closing proxies; re-login with work connections for dying sessions; user connections waiting for a work connection while the session is cut; NAT-hole sessions of two visitors starting, being answered and ending together; two users' traffic through two proxies while a third proxy comes and goes) and the control connection's request/response lanes with duplicated, late and too-late answers, and the in-process listener (two puts, an accepting owner, a close) (3 deviations each), under all schedules with at most B deviations (two default orders) with the happens-before detector on every struct-field map of the instrumented packages; non-trivial = distinct (position, type, field, value)")
+	c.Rule("E1: (a) all single-field deviations over extreme-value alphabets (negative / huge integers, empty / 9000-char / control-character strings, nil / empty / 300-entry maps, nil / empty / 1000-entry lists, malformed addresses) of all 18 message types (NewProxy for all 8 proxy types) sent to the real frps as first message of a connection and on an established session, and of the server-to-client types sent by a model server to the real frpc; (a2) malformed user-side input on the tcpmux CONNECT port (14 Proxy-Authorization shapes x 2 hosts, 14 malformed request heads) and on the https port (a real ClientHello with each of its first 80 bytes set to 0xff / 0x00 or truncated there); after each case a bystander session, its tunnel, a fresh login and a fresh tunnel must work, no managed thread may have panicked (= process crash) and none may be stuck after teardown; (b) six concurrent mixed-traffic storms, the statistics collector of the dashboard switched on (registration / closure / groups / session cut; secret proxies, visitors and NAT-hole messages against closing proxies; re-login with work connections for dying sessions; user connections waiting for a work connection while the session is cut; NAT-hole sessions of two visitors starting, being answered and ending together; two users' traffic through two proxies while a third proxy comes and goes) and the control connection's request/response lanes with duplicated, late and too-late answers, and the in-process listener (two puts, an accepting owner, a close) (3 deviations each), a client that is stopped while it logs in or right after (2 deviations), under all schedules with at most B deviations (two default orders) with the happens-before detector on every struct-field map of the instrumented packages; non-trivial = distinct (position, type, field, value)")
 	pool := vs.GetPool(c.Workers)
 	var names []string
 	wdummy := map[string]msg.Message{}
@@ -785,5 +810,8 @@ func main() {
 		c.ExploreBoth("lane|"+v, 3, 0.25)
 	}
 	c.ExploreBoth("ilisten", 3, 0.5)
+	for _, v := range []string{"atonce", "loggedin"} {
+		c.ExploreBoth("closeearly|"+v, 2, 0.5)
+	}
 	c.Finish()
 }
